@@ -38,6 +38,24 @@ def run(ctx):
         else:
             ctx.notes.append(f"operation-table mismatch (C16) seen in family ble_ops: {f['fields']}")
     ctx.notes[:] = sorted(set(ctx.notes))[:20]
+    # the connection-management calls of the client (connect / start / finish / disconnect, also racing each other):
+    # a raw exception escaping one of them is a violation of this property; the pointer discipline itself is C19's
+    from vf import clientsim
+    from vf.props import c19
+    import random as _random
+
+    rc = _random.Random(ctx.seed + 90)
+    ccases = clientsim.stage_family(c19.CFGS[:1]) + [(c, clientsim.random_history(rc, c, rc.randrange(2, 4), rc.choice((0.25, 0.5)))) for c in (rc.choice(c19.CFGS) for _ in range(300 if ctx.quick else 5000))]
+    cres = c19.run_family(ctx, "client_calls", ccases)
+    ctx.evaluations += cres["n"]
+    ctx.distinct |= {("client_calls", i) for i in range(cres["n"])}
+    for f in cres["findings"]:
+        raw = any(str(d[1]).startswith("RAW:") for r in f["rows"] for d in r.get("dn", []))
+        if raw or f["fields"] == ["hang"]:
+            ctx.violation(f"Client/client_calls/{f['cause']}/{'+'.join(f['fields'])}", {"kind": "client-trace", "family": "client_calls", **f})
+        else:
+            ctx.notes.append(f"client-level mismatch outside C09 ({f['fields']}) seen in family client_calls")
+    ctx.notes[:] = sorted(set(ctx.notes))[:20]
     ctx.assumptions.append("liveness is checked on the bounded connect slice only; on the real code 'never hangs' is the idle-row rule plus exact completion instants")
 
 
@@ -48,6 +66,11 @@ def rng_sample(xs, n, seed):
 
 
 def replay(ctx, case):
+    if case.get("kind") == "client-trace":
+        from vf.props import c19
+
+        c19.replay(ctx, case)
+        return
     if case.get("kind") == "session-trace":
         from vf.props import sess_common
 
